@@ -244,11 +244,12 @@ impl Literal {
                 false
             }
             (Literal::Range(min, max, num_ty), Type::Array(elem_ty, size)) => {
+                // (as in the language, a range is never empty: `3u8..3u8` is not a valid range)
                 elem_ty.as_ref() == &Type::Unsigned(*num_ty)
-                    && min <= max
+                    && min < max
                     && max - min == *size as u64
                     // (the last element of the range, max - 1, must be representable as well)
-                    && (min == max || num_ty.max().is_none_or(|limit| *max - 1 <= limit))
+                    && num_ty.max().is_none_or(|limit| *max - 1 <= limit)
             }
             _ => false,
         }
